@@ -13,7 +13,13 @@ class Input:
 
 class RealInput(Input):
     def read_input(self, prompt):  # type: (str) -> str
-        return _my_input(prompt)
+        try:
+            return _my_input(prompt)
+        except UnicodeEncodeError:
+            # the prompt names a file whose name cannot be written in the
+            # encoding of the terminal: show it escaped instead of aborting
+            return _my_input(prompt.encode('ascii', 'backslashreplace')
+                             .decode('ascii'))
 
 
 class HardCodedInput(Input):
